@@ -19,6 +19,15 @@ type loopHead struct {
 	entryVals map[int]*Term // vAtEntry values, by call-site ordinal
 	entrySlices map[int][]*Term
 	entrySeq  uint64
+	classCells []classCell // loop-carried slice variables whose allocation class is kept by the loop (checked at back edges)
+}
+
+// classCell: the region leaf `leaf` of local cell `key` stays within allocation classes `mask`.
+type classCell struct {
+	key  cellKey
+	leaf int
+	mask uint16
+	name string
 }
 
 type loopEvalCtx struct {
@@ -205,6 +214,20 @@ func (e *Engine) enterLoop(fr *Frame, li *loopInfo, cur *State) *State {
 		ts := freshTerms(fmt.Sprintf("loop%d.%s", e.loopSeq+1, a.Comment), t)
 		st.assume(wfAssumptions(ts, t, true))
 		e.assumeNotFuture(st, ts, t)
+		// a slice variable carried around the loop keeps the allocation class it has on entry
+		// (e.g. "freshly allocated": list = append(list, x)); assumed here, proved at the back edges
+		old := st.cells[k]
+		for i, l := range leavesOf(t) {
+			if l.kind != LRegion || i >= len(old) || ts[i].op != "var" {
+				continue
+			}
+			if callAllocOrNil(old[i]) && !(old[i].IsConst() && old[i].val.Sign() == 0) {
+				regionClass[ts[i].id] = 1<<15 | 1
+				callAllocVars[ts[i].id] = true
+				st.assume(Or(Eq(ts[i], BVConst(0, RegionSort)), BVUlt(BVConstU(0xF000000000000000+callAllocBase, RegionSort), ts[i])))
+				h.classCells = append(h.classCells, classCell{k, i, 0, a.Comment})
+			}
+		}
 		st.cells[k] = ts
 		delete(st.clos, k)
 		delete(st.caddr, k)
@@ -326,6 +349,7 @@ func (e *Engine) enterLoop(fr *Frame, li *loopInfo, cur *State) *State {
 				}
 				var regions []*Term
 				fresh := false
+				freshAll := false
 				okFrame := true
 				if len(logged["*"]) > 0 {
 					continue
@@ -343,6 +367,12 @@ func (e *Engine) enterLoop(fr *Frame, li *loopInfo, cur *State) *State {
 						// object allocated inside the loop: named individually below
 					}
 					if dependsOnLoop(r, prefix, vprefix) {
+						// a loop-carried slice known to stay in freshly allocated memory: every
+						// fresh-class region may be written, pre-existing memory is not
+						if callAllocOrNil(r) {
+							freshAll = true
+							continue
+						}
 						okFrame = false
 						break
 					}
@@ -360,7 +390,9 @@ func (e *Engine) enterLoop(fr *Frame, li *loopInfo, cur *State) *State {
 					continue
 				}
 				nm := m
-				if fresh {
+				if freshAll {
+					nm = nm.HavocFresh(callAllocBase)
+				} else if fresh {
 					nm = nm.HavocFresh(seq0)
 				}
 				nm = nm.HavocRegions(regions)
@@ -416,6 +448,18 @@ func (e *Engine) backEdge(fr *Frame, li *loopInfo, s *State, from *ssa.BasicBloc
 		unsup("back edge of loop %d without invariant", li.ord)
 	}
 	e.loopFrameCheck(fr, li, s)
+	for _, cc := range h.classCells {
+		cv, ok := s.cells[cc.key]
+		if !ok || cc.leaf >= len(cv) {
+			continue
+		}
+		r := cv[cc.leaf]
+		if callAllocOrNil(r) {
+			continue // syntactically nil or allocated during the call
+		}
+		goal := Or(Eq(r, BVConst(0, RegionSort)), BVUlt(BVConstU(0xF000000000000000+callAllocBase, RegionSort), r))
+		e.obligeNamed(fr, s, "class-preserved", li, goal, fmt.Sprintf("loop %d keeps %s in memory allocated during the call", li.ord, cc.name))
+	}
 	e.loopEval = &loopEvalCtx{head: h}
 	iv := e.evalLoopFn(fr, s, inv, li)
 	e.loopEval = nil
